@@ -97,6 +97,7 @@ type Contracts struct {
 	Pures   map[string]*PureFunc // key: pkgpath + "." + [RecvTypeName + "."] + name
 	Lemmas  []*Lemma
 	Ghosts  []*GhostField
+	GhostVars map[string]*GhostField // ghost globals by name
 	Devirts []*Devirt
 	Imports map[string]map[string]string // per contract file pkgpath: alias -> import path
 	Axioms  []*Lemma
@@ -247,6 +248,18 @@ func (cs *Contracts) loadFile(path string, pkgPath string, isExternFile bool) er
 				}
 				cs.Pures[key] = pf
 			case "ghost":
+				// ghost var name Type: a ghost global (one flat namespace)
+				if len(fields) >= 4 && fields[1] == "var" {
+					ty, err := parseSpecType(strings.Join(fields[3:], " "))
+					if err != nil {
+						return fail(l, "%v", err)
+					}
+					if cs.GhostVars == nil {
+						cs.GhostVars = map[string]*GhostField{}
+					}
+					cs.GhostVars[fields[2]] = &GhostField{PkgPath: pkgPath, Field: fields[2], Type: ty, DeclPkg: pkgPath, File: path}
+					continue
+				}
 				// ghost field T.name Type
 				if len(fields) < 4 || fields[1] != "field" {
 					return fail(l, "ghost field T.name Type")
